@@ -744,7 +744,7 @@ impl Prop for C08 {
         "C08"
     }
     fn rule(&self) -> String {
-        "bounded-exhaustive breadth-first enumeration of ON-DISK IMAGES: 8-bucket table, alphabet of 4 keys that all hash to one bucket with lengths 10, 11, 19, 26 (tight for their key slots), value sizes {0, 14, 15, 1100}; 20 transitions per image (16 put(k,size), 4 delete(k)); start images: empty, two walk-only images (an aged store with 1300 slots on the shared large free list and transitions that also ask for 5000 bytes; a value file beyond 16 MiB), and seeded images built from filler entries in other buckets so that the end of the value file, of the key file, or of both lies within 48 bytes below / at or above 16 KiB (thorough: also 2 MiB), with freed slots of the alphabet's classes lying below the boundary. Image identity = digest of the three files; each transition = restore the image, open, one call, close. When the cap cuts the breadth-first search, 150 (thorough: 1500) seeded random walks of 30 calls from the start image go beyond the frontier with the same oracle. Oracle at every transition: the call's result vs the model, get of all alphabet keys and of (a sample of) the filler entries, len, then independent decode: structure, tiling, contents == model; two call paths to one image must carry one model. evaluations = transitions executed; states = distinct images (cap per start image: quick 3000, thorough 60000; evidence says per start image whether the graph was closed under the cap). Non-trivial: a transition in which a surviving key record changed its offset or one of its offset fields changed its encoded width (distinct by image digest x transition). SESSION HISTORIES (quick 4000, thorough 20000): because every transition above is its own open/call/close, state kept in memory between calls is out of its reach; these cases run one random history (put 50 / delete 14 / get 22 / ..., 10-260 calls, values crossing slot classes, files also beyond 16 KiB / 2 MiB / 16 MiB via preludes) on 2-9 keys in a table of 1-3 buckets within ONE session and observe it through the files only: flush + independent decode (structure, tiling, contents == model) after every call in every second case, at close in all; results of the generated calls vs the model. Non-trivial: a surviving key record moved, or a chain of >= 3 with class-changing overwrites and deletes (distinct by case digest)."
+        "bounded-exhaustive breadth-first enumeration of ON-DISK IMAGES: 8-bucket table, alphabet of 4 keys that all hash to one bucket with lengths 10, 11, 19, 26 (tight for their key slots), value sizes {0, 14, 15, 1100}; 20 transitions per image (16 put(k,size), 4 delete(k)); start images: empty, two walk-only images (an aged store with 1300 slots on the shared large free list and transitions that also ask for 5000 bytes; a value file beyond 16 MiB), and seeded images built from filler entries in other buckets so that the end of the value file, of the key file, or of both lies within 48 bytes below / at or above 16 KiB (thorough: also 2 MiB), with freed slots of the alphabet's classes lying below the boundary. Image identity = digest of the three files; each transition = restore the image, open, one call, close. When the cap cuts the breadth-first search, 150 (thorough: 1500) seeded random walks of 30 calls from the start image go beyond the frontier with the same oracle. Oracle at every transition: the call's result vs the model, get of all alphabet keys and of (a sample of) the filler entries, len, then independent decode: structure, tiling, contents == model; two call paths to one image must carry one model. evaluations = transitions executed; states = distinct images (cap per start image: quick 3000, thorough 60000, 6000 for the 2 MiB images; evidence says per start image whether the graph was closed under the cap). Non-trivial: a transition in which a surviving key record changed its offset or one of its offset fields changed its encoded width (distinct by image digest x transition). SESSION HISTORIES (quick 4000, thorough 20000): because every transition above is its own open/call/close, state kept in memory between calls is out of its reach; these cases run one random history (put 50 / delete 14 / get 22 / ..., 10-260 calls, values crossing slot classes, files also beyond 16 KiB / 2 MiB / 16 MiB via preludes) on 2-9 keys in a table of 1-3 buckets within ONE session and observe it through the files only: flush + independent decode (structure, tiling, contents == model) after every call in every second case, at close in all; results of the generated calls vs the model. Non-trivial: a surviving key record moved, or a chain of >= 3 with class-changing overwrites and deletes (distinct by case digest)."
             .to_string()
     }
     fn assumptions(&self) -> Vec<String> {
@@ -770,7 +770,9 @@ impl Prop for C08 {
             profile: w.profile.clone(),
             ..Default::default()
         };
-        match bfs(v, cap(tier), _seed, tier.pick(150, 1500), 30, w) {
+        // every transition of a 2 MiB image restores, writes and decodes 2 MiB x 3: a tenth of the cap
+        let cap_v = if v.ends_with("-2m") { cap(tier) / 10 } else { cap(tier) };
+        match bfs(v, cap_v, _seed, tier.pick(150, 1500), 30, w) {
             Ok((st, nt)) => {
                 out.evals = st.transitions;
                 out.nontrivial = nt;
